@@ -83,7 +83,7 @@ if os.path.exists(extra):
         if k not in checks:
             pending[k] = v
 hooks_commits = subprocess.run(["git","-C","/repo","log","--format=%h %s"],capture_output=True,text=True).stdout.splitlines()
-hook_shas = [l.split()[0] for l in hooks_commits if "verif hook" in l]
+hook_shas = [l.split()[0] for l in hooks_commits if "verif hook" in l or "verif-hooks:" in l]
 ids=[f"C{i:02d}" for i in range(1,21)]
 m={
  "version":1,
